@@ -71,7 +71,9 @@ Section Lts.
   | CUpdate (id : string) (msg : M) (o : wopts)    (* Collection.Update; Add = as_add o *)
   | CDelete (id : string) (o : wopts)              (* Collection.Delete *)
   | CSubV (ro : ropts)                             (* Value.Pull, backpressured *)
-  | CSubC (ro : ropts).                            (* Collection.Pull, backpressured *)
+  | CSubC (ro : ropts)                             (* Collection.Pull, backpressured *)
+  | CSubID (id : string) (ro : ropts).             (* Collection.PullID: a Pull opened by its own goroutine,
+                                                      filtered by Pull.pull_id_from *)
 
   Inductive outcome :=
   | OVal (r : M + Z)                      (* Set / Update: returned message, or gRPC code *)
@@ -86,7 +88,9 @@ Section Lts.
   | PSavedV (nv : M) (e : vevent)                         (* value.publish *)
   | PSavedC (nv : M) (e : cevent)                         (* coll.publish *)
   | PDel (seen : option (item * Z)) (attempt : nat)       (* del.read / del.retry *)
-  | PDone (r : outcome).
+  | PDone (r : outcome)
+  | POpen.                                                (* PullID has returned its channel; its goroutine,
+                                                             parked at pullid.open, has not called Pull yet *)
 
   Inductive effect :=
   | ENone
@@ -211,6 +215,9 @@ Section Lts.
     (* ---------- Pull ---------- *)
     | CSubV ro, PStart => Some (PDone OSub, w, ESubV ro)
     | CSubC ro, PStart => Some (PDone OSub, w, ESubC ro)
+    (* PullID returns at once; the subscription point is wherever its goroutine gets to call Pull *)
+    | CSubID _ ro, PStart => Some (POpen, w, ENone)
+    | CSubID _ ro, POpen => Some (PDone OSub, w, ESubC ro)
     | _, _ => None
     end.
 
@@ -231,6 +238,7 @@ Section Lts.
         | _ => None
         end
     | PDone r => match r with OLost _ | OSub => None | _ => Some r end
+    | POpen => None
     end.
 
   (* ---- subscribers: the snapshot taken by onUpdate and the raw events delivered since ---- *)
@@ -335,7 +343,7 @@ Section Lts.
     | CDelete id o =>
         let '(c', r, e, _) := spec_c_delete m_eqb clock_at idfun (snd vc) id o in
         ((fst vc, c'), ODel r e)
-    | CSubV _ | CSubC _ => (vc, OSub)
+    | CSubV _ | CSubC _ | CSubID _ _ => (vc, OSub)
     end.
 
   (* replaying calls one at a time in a given order *)
@@ -369,6 +377,8 @@ Arguments CUpdate {M writer rmask} id msg o.
 Arguments CDelete {M writer rmask} id o.
 Arguments CSubV {M writer rmask} ro.
 Arguments CSubC {M writer rmask} ro.
+Arguments CSubID {M writer rmask} id ro.
+Arguments POpen {M}.
 Arguments OLost {M} code.
 Arguments OSub {M}.
 Arguments PStart {M}.
